@@ -28,6 +28,19 @@
 #include <soundswallower/mllr.h>
 #include <soundswallower/bin_mdef.h>
 #include <soundswallower/feat.h>
+#include <soundswallower/acmod.h>
+#include <soundswallower/tmat.h>
+#include <soundswallower/ptm_mgau.h>
+
+/* exported by the library for the JavaScript binding (js/exported_functions.txt) but declared in no installed header */
+int decoder_init_cleanup(decoder_t *d);
+fe_t *decoder_init_fe(decoder_t *d);
+feat_t *decoder_init_feat_s3file(decoder_t *d, s3file_t *lda);
+acmod_t *decoder_init_acmod_pre(decoder_t *d);
+int decoder_init_acmod_post(decoder_t *d);
+dict_t *decoder_init_dict_s3file(decoder_t *d, s3file_t *dict, s3file_t *fdict);
+int decoder_init_grammar_s3file(decoder_t *d, s3file_t *fsg_file, s3file_t *jsgf_file);
+
 
 enum { ST_IDLE, ST_STARTED, ST_ENDED };
 typedef struct actx {
@@ -71,6 +84,11 @@ static void op_grammar(actx *c)
         vh_write_file(path, g.text.s, g.text.n);
         vh_ctx("decoder_set_jsgf_file"); rv = decoder_set_jsgf_file(c->d, path); unlink(path);
         LOG(c, "set_jsgf_file=%d ", rv);
+    } else if (how == 3 && g.kind != VG_ALIGN_TEXT) {
+        /* the JavaScript binding's way: the grammar text as an in-memory file handed to decoder_init_grammar_s3file */
+        s3file_t *s3 = s3file_init(g.text.s, g.text.n);
+        vh_ctx("decoder_init_grammar_s3file"); rv = g.kind == VG_FSG_TEXT ? decoder_init_grammar_s3file(c->d, s3, NULL) : decoder_init_grammar_s3file(c->d, NULL, s3);
+        s3file_free(s3); LOG(c, "init_grammar_s3file(%s)=%d ", vd_gram_kind_name(g.kind), rv); vh_count("grammars_loaded_from_memory_files", 1);
     } else { rv = vd_gram_load(c->d, &g); LOG(c, "set_%s=%d ", vd_gram_kind_name(g.kind), rv); }
     if (rv == 0) { c->have_gram = 1; vh_count("grammars_loaded", 1); }
     else vh_count("grammar_refused", 1);
@@ -327,6 +345,27 @@ static void op_standalone(actx *c)
     } else {
         config_t *cf; vh_ctx("config_parse_json"); cf = config_parse_json(NULL, "{\"samprate\": 8000, \"beam\": 1e-20, \"compallsen\": true, \"cmn\": \"none\"}");
         if (cf) { (void)config_serialize_json(cf); config_set_int(cf, "nfft", 512); config_set_str(cf, "dict", NULL); config_unset(cf, "beam"); config_retain(cf); config_free(cf); vh_ctx("config_free"); config_free(cf); }
+        /* string values as users have them: paths with accents, other scripts, quotes, backslashes, control characters.  The text
+         * produced by config_serialize_json is read back; printable values must come back unchanged */
+        {
+            static const char *vals[] = { "/home/andr\xc3\xa9/mod\xc3\xa8le", "\xe6\x97\xa5\xe6\x9c\xac\xe8\xaa\x9e/dict.txt", "C:\\models\\en \"us\"", "plain", "\xc3\xbc", "tab\there", "line\nbreak", "\x01\x1f\x7f", "\xf0\x9f\x8e\xa4 mic", "" };
+            static const char *keys[] = { "hmm", "dict", "fdict", "jsgf", "fsg", "mllr", "featparams" };
+            config_t *c1 = config_init(NULL), *c2; const char *js; int q, nk = vh_range(c->r, 1, 7); const char *set[7];
+            for (q = 0; q < nk; ++q) { set[q] = VH_PICK(c->r, vals); vh_ctx("config_set_str"); config_set_str(c1, keys[q], set[q]); }
+            vh_ctx("config_serialize_json"); js = config_serialize_json(c1);
+            expect(c, js != NULL, "config_serialize_null", "config_serialize_json returned NULL for a configuration with %d string values", nk);
+            if (js) {
+                char *copy = strdup(js); vh_ctx("config_parse_json(serialized)"); c2 = config_parse_json(NULL, copy);
+                expect(c, c2 != NULL, "config_serialized_text_not_parsable", "config_parse_json refuses the text config_serialize_json produced: %.200s", copy);
+                if (c2) {
+                    for (q = 0; q < nk; ++q) { const char *back = config_str(c2, keys[q]); int printable = 1; const char *z; for (z = set[q]; *z; ++z) if ((unsigned char)*z < 0x20 || *z == 0x7f) printable = 0;
+                        if (printable && *set[q] && (!back || strcmp(back, set[q]))) expect(c, 0, "config_string_changed_by_serialization", "%s was set to \"%s\", serialised and parsed back as \"%s\"", keys[q], set[q], back ? back : "(null)"); }
+                    config_free(c2);
+                }
+                free(copy); vh_count("config_serialization_round_trips", 1);
+            }
+            config_free(c1);
+        }
         LOG(c, "config_standalone ");
     }
     vh_count("standalone_objects_exercised", 1);
@@ -362,6 +401,41 @@ static void reference(const vd_cfg *cfg, int lang, char *hyp, size_t hn, int32 *
     if (k < 24) { refs[k].used = 1; snprintf(refs[k].key, sizeof(refs[k].key), "%s", key); snprintf(refs[k].hyp, sizeof(refs[k].hyp), "%s", hyp); refs[k].score = *score; }
 }
 
+/* The piecewise construction the JavaScript binding uses (js/api.js + js/soundswallower.c): every model file is handed over as an
+ * in-memory s3file_t and the decoder is assembled step by step from the public init functions.  Returns NULL if any step refuses. */
+static decoder_t *piecewise_decoder(config_t *cf)
+{
+    decoder_t *d; acmod_t *am; s3file_t *f, *means = NULL, *vars = NULL, *sd = NULL, *mw = NULL, *dc = NULL, *fd = NULL; const char *p; int ok = 0;
+    vh_ctx("decoder_create"); d = decoder_create(cf);
+    if (!d) return NULL;
+    cf = decoder_config(d);
+    vh_ctx("decoder_init_cleanup"); if (decoder_init_cleanup(d) < 0) goto out;
+    vh_ctx("decoder_init_fe"); if (!decoder_init_fe(d)) goto out;
+    vh_ctx("decoder_init_feat_s3file");
+    { s3file_t *lda = (p = config_str(cf, "lda")) ? s3file_map_file(p) : NULL; feat_t *fc = decoder_init_feat_s3file(d, lda); s3file_free(lda); if (!fc) goto out; }
+    vh_ctx("decoder_init_acmod_pre"); if (!(am = decoder_init_acmod_pre(d))) goto out;
+    vh_ctx("bin_mdef_read_s3file"); if (!(p = config_str(cf, "mdef")) || !(f = s3file_map_file(p))) goto out;
+    am->mdef = bin_mdef_read_s3file(f, config_bool(cf, "cionly")); s3file_free(f); if (!am->mdef) goto out;
+    vh_ctx("tmat_init_s3file"); if (!(p = config_str(cf, "tmat")) || !(f = s3file_map_file(p))) goto out;
+    am->tmat = tmat_init_s3file(f, decoder_logmath(d), config_float(cf, "tmatfloor")); s3file_free(f); if (!am->tmat) goto out;
+    vh_ctx("ptm_mgau_init_s3file");
+    means = (p = config_str(cf, "mean")) ? s3file_map_file(p) : NULL; vars = (p = config_str(cf, "var")) ? s3file_map_file(p) : NULL;
+    if ((p = config_str(cf, "sendump"))) sd = s3file_map_file(p);
+    if (!sd && (p = config_str(cf, "mixw"))) mw = s3file_map_file(p);
+    if (means && vars && (sd || mw)) am->mgau = ptm_mgau_init_s3file(am, means, vars, mw, sd);
+    s3file_free(means); s3file_free(vars); s3file_free(sd); s3file_free(mw);
+    if (!am->mgau) goto out;
+    vh_ctx("decoder_init_acmod_post"); if (decoder_init_acmod_post(d) < 0) goto out;
+    vh_ctx("decoder_init_dict_s3file");
+    dc = (p = config_str(cf, "dict")) ? s3file_map_file(p) : NULL; fd = (p = config_str(cf, "fdict")) ? s3file_map_file(p) : NULL;
+    ok = decoder_init_dict_s3file(d, dc, fd) != NULL;
+    s3file_free(dc); s3file_free(fd);
+    if (ok) vh_count("decoders_assembled_piecewise_from_memory_buffers", 1);
+out:
+    if (!ok) { vh_ctx("decoder_free"); decoder_free(d); return NULL; }
+    return d;
+}
+
 static void run(long i, vh_rng *r)
 {
     actx c; vd_cfg cfg; config_t *cf; int n, k, rc;
@@ -372,7 +446,8 @@ static void run(long i, vh_rng *r)
     if (vh_chance(r, 0.1)) cfg.cmn = VH_PICK(r, ((const char *[]){ "batch", "none" }));
     c.cfg = cfg; cf = vd_make_config(&cfg);
     vh_desc("%s cmn=%s compallsen=%d; %s history", c.lang == VD_FR ? "fr-fr" : "en-us", cfg.cmn, cfg.compallsen, c.hostile ? "hostile (out-of-order and degenerate calls injected)" : "protocol-conforming");
-    if (vh_chance(r, 0.2)) { vh_ctx("decoder_create"); c.d = decoder_create(cf); if (c.d) { vh_ctx("decoder_reinit"); if (decoder_reinit(c.d, NULL) < 0) { decoder_free(c.d); c.d = NULL; } } LOG(&c, "create+reinit "); }
+    if (vh_chance(r, 0.12)) { c.d = piecewise_decoder(cf); LOG(&c, "piecewise_init "); if (!c.d) vh_viol("piecewise_init_refused", "assembling the decoder step by step from in-memory model files failed for a configuration that decoder_init accepts"); }
+    else if (vh_chance(r, 0.2)) { vh_ctx("decoder_create"); c.d = decoder_create(cf); if (c.d) { vh_ctx("decoder_reinit"); if (decoder_reinit(c.d, NULL) < 0) { decoder_free(c.d); c.d = NULL; } } LOG(&c, "create+reinit "); }
     else { vh_ctx("decoder_init"); c.d = decoder_init(cf); LOG(&c, "init "); }
     if (!c.d) { vh_inconc("decoder could not be created"); vh_sb_free(&c.log); return; }
     n = vh_chance(r, 0.15) ? vh_range(r, 60, 160) : vh_range(r, 5, 60);
